@@ -141,7 +141,9 @@ class Builder:
                 constants[obj.name] = obj
                 self.add_to_context(context, obj.name, obj)
             elif isinstance(obj, Macro):
-                obj = rebuild_macro_in_context(obj, context, gate_context)
+                obj = rebuild_macro_in_context(
+                    obj, context, gate_context, self.is_anonymous_gate_allowed()
+                )
                 # Known before any later macro or statement calls this one
                 contains_subcircuit(obj, self.subcircuit_memo)
                 macros[obj.name] = obj
@@ -153,7 +155,9 @@ class Builder:
                 or isinstance(obj, BranchStatement)
                 or isinstance(obj, CaseStatement)
             ):
-                obj = rebuild_statement_in_context(obj, context, gate_context)
+                obj = rebuild_statement_in_context(
+                    obj, context, gate_context, self.is_anonymous_gate_allowed()
+                )
                 statements.append(obj)
             elif isinstance(obj, UsePulsesStatement):
                 usepulses.append(obj)
@@ -310,17 +314,21 @@ class Builder:
                 )
             return gate_def
 
-        is_anonymous_gate_allowed = (
-            self.inject_pulses is None
-        ) and not self.autoload_pulses
-
-        if not is_anonymous_gate_allowed:
+        if not self.is_anonymous_gate_allowed():
             raise JaqalError(f"No gate {name} defined")
         gate_def = GateDefinition(
             name, parameters=[Parameter(f"p{i}", None) for i in range(arg_count)]
         )
+        # So that a statement built ahead of its circuit can be told from
+        # one that carries a real definition
+        gate_def.made_up = True
         gate_context[name] = gate_def
         return gate_def
+
+    def is_anonymous_gate_allowed(self):
+        """Return whether a gate that is neither native nor a macro may be
+        used (then a definition is made up for it)."""
+        return (self.inject_pulses is None) and not self.autoload_pulses
 
     def build_loop(self, sexpression, context, gate_context):
         count, block = sexpression.args
@@ -440,7 +448,7 @@ def contains_subcircuit(obj, memo=None):
     return False
 
 
-def rebuild_macro_in_context(macro, context, gate_context):
+def rebuild_macro_in_context(macro, context, gate_context, allow_made_up=True):
     """Rebuild a built macro with the given context. This allows this
     macro to refer to other macros that were unknown to it when it was
     originally built.
@@ -451,16 +459,18 @@ def rebuild_macro_in_context(macro, context, gate_context):
 
     """
 
-    visitor = RebuildMacroInContextVisitor(context, gate_context)
+    visitor = RebuildMacroInContextVisitor(context, gate_context, allow_made_up)
     _changed, new_macro = visitor.visit(macro)
     return new_macro
 
 
-def rebuild_statement_in_context(statement, context, gate_context):
+def rebuild_statement_in_context(
+    statement, context, gate_context, allow_made_up=True
+):
     """Like rebuild_macro_in_context, for a statement of the circuit body
     that may have been built before the circuit's gates were known."""
 
-    visitor = RebuildMacroInContextVisitor(context, gate_context)
+    visitor = RebuildMacroInContextVisitor(context, gate_context, allow_made_up)
     _changed, new_statement = visitor.visit(statement)
     return new_statement
 
@@ -474,9 +484,10 @@ class RebuildMacroInContextVisitor(Visitor):
 
     """
 
-    def __init__(self, context, gate_context):
+    def __init__(self, context, gate_context, allow_made_up=True):
         self.context = context
         self.gate_context = gate_context
+        self.allow_made_up = allow_made_up
 
     def visit_Macro(self, macro):
         changed, new_body = self.visit(macro.body)
@@ -531,7 +542,9 @@ class RebuildMacroInContextVisitor(Visitor):
     def visit_GateStatement(self, gate):
         gate_def = self.gate_context.get(gate.name)
         if gate_def is None:
-            # Shouldn't happen but really none of our business here.
+            if not self.allow_made_up and getattr(gate.gate_def, "made_up", False):
+                # Built ahead of the circuit, where every name is accepted
+                raise JaqalError(f"No gate {gate.name} defined")
             return False, gate
         if isinstance(gate_def, Macro):
             if gate_def == gate.gate_def:
